@@ -270,6 +270,30 @@ impl Archive {
         };
         debug!("Got gc lock");
 
+        // Whatever happens below, release the lock before returning, rather than leaving it
+        // to the lock's Drop, which can only remove the file from a task spawned for later:
+        // if the caller's runtime ends first (the program exits with the error) the lock
+        // file would stay behind and block every later backup and gc.
+        let result = self
+            .delete_bands_locked(delete_band_ids, options, &gc_lock, &mut stats, monitor)
+            .await;
+        let released = gc_lock.release().await;
+        result?;
+        released?;
+
+        stats.elapsed = start.elapsed();
+        Ok(stats)
+    }
+
+    /// The body of [Archive::delete_bands], run while holding the gc lock.
+    async fn delete_bands_locked(
+        &self,
+        delete_band_ids: &[BandId],
+        options: &DeleteOptions,
+        gc_lock: &gc_lock::GarbageCollectionLock,
+        stats: &mut DeleteStats,
+        monitor: Arc<dyn Monitor>,
+    ) -> Result<()> {
         debug!("List band ids...");
         let mut keep_band_ids = self.list_band_ids().await?;
         keep_band_ids.retain(|b| !delete_band_ids.contains(b));
@@ -328,10 +352,7 @@ impl Archive {
             stats.deletion_errors += error_count;
             stats.deleted_block_count += unref_count - error_count;
         }
-        gc_lock.release().await?;
-
-        stats.elapsed = start.elapsed();
-        Ok(stats)
+        Ok(())
     }
 
     /// Walk the archive to check all invariants.
